@@ -116,7 +116,14 @@ DecompCases == DecompPool(2) \cup DecompPool(3)
                           M4(<<<<Z0,R(1),Z0>>, <<R(1),Z0,Z0>>, <<Q(1,2),Z0,R(2)>>>>, <<Z0,R(2),Z0>>)}}
                  \cup {[kind |-> "decompose", d |-> 2, cls |-> "Rotation", M |-> Rot2(Q(3,5),Q(4,5))], [kind |-> "decompose", d |-> 3, cls |-> "Rotation", M |-> RotX(Q(3,5),Q(4,5))]}
 Discrete(cls) == cls \in {"Rotation", "Translation", "UniformScale", "NonUniformScale"}
-Cases == (IF "decompose" \in Kinds THEN DecompCases ELSE {}) \cup (IF "vec" \in Kinds THEN VecCases(2, Pool2) \cup VecCases(3, [c \in DOMAIN Pool3 \ {"Similarity"} |-> Pool3[c]]) \cup RotVecCases ELSE {})
+\* products of projective members whose matrix is NOT in the usual normal form: bottom-right entry zero, negative or 2 (a
+\* homogeneous matrix is defined up to a non-zero factor; zero times anything is not a transform)
+HProdPairs == { <<H3(O1,Z0,Z0, Z0,O1,Z0, O1,Z0,O1), Tr2(R(-1),Z0)>>,          \* corner of the product: 0
+                <<H3(O1,Z0,Z0, Z0,O1,Z0, O1,Z0,O1), Tr2(R(-3),R(2))>>,        \* corner: -2
+                <<H3(O1,R(2),Z0, Z0,O1,O1, Z0,Z0,R(2)), Tr2(R(1),R(1))>>,     \* corner: 2
+                <<H3(O1,Z0,Z0, Z0,O1,Z0, Z0,Q(1,2),O1), H3(O1,Z0,R(1), Z0,O1,R(-2), Z0,Z0,O1)>> }   \* corner: 0
+HProdCases == {[kind |-> "hprod", d |-> 2, cls |-> "Homogeneous", M |-> p[1], M2 |-> p[2]] : p \in HProdPairs}
+Cases == (IF "decompose" \in Kinds THEN DecompCases \cup HProdCases ELSE {}) \cup (IF "vec" \in Kinds THEN VecCases(2, Pool2) \cup VecCases(3, [c \in DOMAIN Pool3 \ {"Similarity"} |-> Pool3[c]]) \cup RotVecCases ELSE {})
          \cup (IF "alvec" \in Kinds THEN AlCases ELSE {})
          \cup (IF "rot2" \in Kinds THEN Rot2Cases ELSE {}) \cup (IF "rot3" \in Kinds THEN Rot3Cases ELSE {})
          \cup (IF "quat" \in Kinds THEN QuatCases ELSE {}) \cup (IF "about" \in Kinds THEN AboutCases ELSE {})
@@ -146,6 +153,8 @@ Out(c) ==
                                cls |-> IF c.ndims # 0 \/ AllEq(c.factors) THEN "UniformScale" ELSE "NonUniformScale"]
     [] c.kind = "tcoords" -> [case |-> c, M |-> TcM(c.shape), Minv |-> Inv(TcM(c.shape))]
     [] c.kind = "inv3" -> [case |-> c, inv |-> Inv(c.M)]
+    \* a.compose_after(b) = a o b: matrix A B (b = the second matrix, applied first)
+    [] c.kind = "hprod" -> [case |-> c, P |-> MMul(c.M, c.M2)]
     [] c.kind = "decompose" -> [case |-> c, discrete |-> Discrete(c.cls), n_parts |-> IF Discrete(c.cls) THEN 1 ELSE 4, det |-> Det(Lin(c.M))]
 Init == case \in Cases /\ done = FALSE
 Next == done = FALSE /\ done' = TRUE /\ case' = case /\ CSVWrite("%1$s", <<ToJson(Out(case))>>, IOEnv.OUT_FILE)
@@ -159,6 +168,8 @@ ClassHonest(cls, M) == CASE cls = "Affine" -> IsAffine(M) [] cls = "Similarity" 
                          [] cls = "NonUniformScale" -> IsNonUniformScale(M) [] cls = "UniformScale" -> IsUniformScale(M)
                          [] cls = "Rotation" -> IsRotation(M) [] OTHER -> TRUE
 PoolHonest == (IsVec \/ case.kind \in {"inv3", "decompose"}) => ClassHonest(case.cls, case.M)
+\* the products are invertible projective maps although their corner entry is not 1
+HProdInvertible == case.kind = "hprod" => Det(MMul(case.M, case.M2)) # Z0
 FromVecHonest == IsVec => \A v \in OtherVecs(case) : ClassHonest(case.cls, FromVec(case.cls, case.d, v))
 QuatIsRotation == case.kind = "quat" => IsRotation(QuatM(case.q)) /\ QuatM(Canon(case.q)) = QuatM(case.q)
 Inverse3 == case.kind = "inv3" => /\ MMul(Inv(case.M), case.M) = IdM(4) /\ MMul(case.M, Inv(case.M)) = IdM(4)
